@@ -390,10 +390,6 @@ def selSets (S : Schema) (D : Document) : List (Option String × SelSet) :=
     | .op kind _ _ _ sel => setsSet S (S.root (opKindOf kind)) sel
     | .frag _ _ tc _ _ sel _ => setsSet S (condScope S tc) sel
 
-/-- §5.3.2 Field Selection Merging: FieldsInSetCanMerge holds for every selection set. -/
-def fieldsMerge (S : Schema) (D : Document) : Bool :=
-  (selSets S D).all fun (scope, ss) =>
-    fieldsCanMerge S D (fuelFor D) (collect S D (fuelFor D) scope [] ss.sels).1
 
 /-! ## §5.4 Arguments -/
 
@@ -508,6 +504,15 @@ def reachable (D : Document) : Nat → List String → List String
 def noFragmentCycles (D : Document) : Bool :=
   (fragNames D).all fun n => !(reachable D (fragNames D).length (dedup (fragDeps D n))).contains n
 
+/-- §5.3.2 Field Selection Merging: FieldsInSetCanMerge holds for every selection set. The rule is
+    stated for documents whose fragment spreads form no cycle (§5.5.2.2 is what makes the expansion
+    of a selection set finite); for a document with a spread cycle it holds vacuously — such a
+    document is invalid by §5.5.2.2. -/
+def fieldsMerge (S : Schema) (D : Document) : Bool :=
+  !noFragmentCycles D ||
+  (selSets S D).all fun (scope, ss) =>
+    fieldsCanMerge S D (fuelFor D) (collect S D (fuelFor D) scope [] ss.sels).1
+
 def intersects (a b : List String) : Bool := a.any fun x => b.contains x
 
 /-- §5.5.2.3 Fragment spread is possible. -/
@@ -616,18 +621,23 @@ def varDefsOf : Definition → List VarDef
   | .op _ _ vars _ _ => vars
   | .frag .. => []
 
-/-- An argument value with the argument's definition (only for defined arguments). -/
-def argValues (S : Schema) (D : Document) : List (InputDef × Value) :=
-  (argSites S D).flatMap fun s => s.args.filterMap fun a =>
-    (findInput s.defs a.name).map fun d => (d, a.value)
+/-- The value of a defined argument has the argument's type. -/
+def argValueOk (S : Schema) (s : ArgSite) (a : Argument) : Bool :=
+  match findInput s.defs a.name with
+  | some d => valueOk S d.type true a.value
+  | none => true
+
+def siteValuesOk (S : Schema) (s : ArgSite) : Bool := s.args.all (argValueOk S s)
+
+/-- The default value of a variable has the variable's type. -/
+def defaultOk (S : Schema) (vd : VarDef) : Bool :=
+  match vd.dflt, resolveType S vd.type with
+  | some v, some t => valueOk S t true v
+  | _, _ => true
 
 /-- §5.6.1–§5.6.4 for every argument value and every variable default value. -/
 def valuesCorrect (S : Schema) (D : Document) : Bool :=
-  ((argValues S D).all fun (d, v) => valueOk S d.type true v) &&
-  (D.all fun d => (varDefsOf d).all fun vd =>
-    match vd.dflt, resolveType S vd.type with
-    | some v, some t => valueOk S t true v
-    | _, _ => true)
+  (argSites S D).all (siteValuesOk S) && D.all (fun d => (varDefsOf d).all (defaultOk S))
 
 /-! ## §5.7 Directives -/
 
@@ -746,26 +756,30 @@ def opUsages (S : Schema) (D : Document) (kind : Option (OpKind × Pos)) (dirs :
 def variablesUnique (D : Document) : Bool :=
   D.all fun d => nodup ((varDefsOf d).map (·.name))
 
+def variableTypeOk (S : Schema) (vd : VarDef) : Bool :=
+  match resolveType S vd.type with
+  | some t => isInputType S t.base
+  | none => false
+
 /-- §5.8.2 Variables Are Input Types. -/
 def variablesAreInputTypes (S : Schema) (D : Document) : Bool :=
-  D.all fun d => (varDefsOf d).all fun vd =>
-    match resolveType S vd.type with
-    | some t => isInputType S t.base
-    | none => false
+  D.all fun d => (varDefsOf d).all (variableTypeOk S)
+
+def usageDefinedIn (vars : List VarDef) (u : Usage) : Bool := vars.any fun vd => vd.name = u.name
+
+/-- Usages in scope of a definition (`[]` for fragments: their usages are in scope of the operations
+    that reach them). -/
+def defUsages (S : Schema) (D : Document) : Definition → List Usage
+  | .op kind _ _ dirs sel => opUsages S D kind dirs sel
+  | .frag .. => []
 
 /-- §5.8.3 All Variable Uses Defined. -/
 def variableUsesDefined (S : Schema) (D : Document) : Bool :=
-  D.all fun
-    | .op kind _ vars dirs sel =>
-      (opUsages S D kind dirs sel).all fun u => vars.any fun vd => vd.name = u.name
-    | _ => true
+  D.all fun d => (defUsages S D d).all (usageDefinedIn (varDefsOf d))
 
 /-- §5.8.4 All Variables Used. -/
 def variablesUsed (S : Schema) (D : Document) : Bool :=
-  D.all fun
-    | .op kind _ vars dirs sel =>
-      vars.all fun vd => (opUsages S D kind dirs sel).any fun u => u.name = vd.name
-    | _ => true
+  D.all fun d => (varDefsOf d).all fun vd => (defUsages S D d).any fun u => u.name = vd.name
 
 /-- AreTypesCompatible(variableType, locationType) (§5.8.5). -/
 def typesCompatible : TRef → TRef → Bool
@@ -791,18 +805,19 @@ def usageAllowed (varType : TRef) (varDefault : Option Value) (u : Usage) : Bool
       else typesCompatible varType inner
     | _ => typesCompatible varType loc
 
+/-- The usage is allowed for the variable of that name (vacuous when the variable or its type is
+    undefined: §5.8.3 / §5.8.2 report that). -/
+def usageAllowedIn (S : Schema) (vars : List VarDef) (u : Usage) : Bool :=
+  match vars.find? (fun vd => vd.name = u.name) with
+  | none => true
+  | some vd =>
+    match resolveType S vd.type with
+    | none => true
+    | some t => usageAllowed t vd.dflt u
+
 /-- §5.8.5 All Variable Usages are Allowed. -/
 def variableUsagesAllowed (S : Schema) (D : Document) : Bool :=
-  D.all fun
-    | .op kind _ vars dirs sel =>
-      (opUsages S D kind dirs sel).all fun u =>
-        match vars.find? (fun vd => vd.name = u.name) with
-        | none => true
-        | some vd =>
-          match resolveType S vd.type with
-          | none => true
-          | some t => usageAllowed t vd.dflt u
-    | _ => true
+  D.all fun d => (defUsages S D d).all (usageAllowedIn S (varDefsOf d))
 
 /-! ## The judgement -/
 
